@@ -119,9 +119,10 @@ CLAIMED["C18"] = dict(
          "file system are exercised only by the bounded stand-in audio_paths (8 types x depths x names x str/Path x in/outside).",
     technique=TECH + "; heap of adapter instances built by the real constructors; uninterpreted path algebra",
 )
-_AOEF_NOTE = ("Trusted / not machine-checked: the DataAdapter base-class contract (dict-based bodies of adapters.py: to_aoef registers and "
-              "returns the stored object, from_id returns it, values() lists the store in insertion order, keys unique) is assumed, not "
-              "executed; the step from the per-adapter, per-field and collection-level obligations to `load(save(x)) == x` is a fixed "
+_AOEF_NOTE = ("Trusted / not machine-checked: at sub-adapter CALL SITES the DataAdapter base-class contract is assumed (to_aoef registers and "
+              "returns the stored object, get_id does not register, from_id returns what was registered, values() lists the store in "
+              "insertion order); the generic method bodies of adapters.py and TagAdapter.get_id are verified against that contract by C02 "
+              "(contracts/adapters.py), the identification of the call-site ghost predicate with store membership is not; the step from the per-adapter, per-field and collection-level obligations to `load(save(x)) == x` is a fixed "
               "structural induction over the adapter dependency DAG (written in DESIGN.md), exercised end to end by the bounded stand-in; "
               "pydantic construction contract; JSON layer identity (stand-in only); preconditions from the quantifier (simple-label terms, "
               "distinct feature labels, valid embedded objects, distinct identifiers in top-level lists).")
@@ -145,8 +146,8 @@ CLAIMED["C02"] = dict(
          "taken after the last call that can register with it, or as the converted list itself when nothing else can "
          "(emission obligations, 8 collection types); sequences convert their parent through their own to_aoef before being "
          "stored (parent-first); load order is a topological order of the look-up dependencies.",
-    note=_AOEF_NOTE + " Uniqueness of identifiers within a list and exact reachability are consequences of the assumed base-class "
-         "contract (stores keyed by identifier, only to_aoef adds); the bounded stand-in aoef_document_closure checks them on the JSON text "
+    note=_AOEF_NOTE + " Uniqueness of identifiers within a list and exact reachability are consequences of the base-class "
+         "contract (stores keyed by identifier, only to_aoef adds), whose method bodies are verified here with whole-store postconditions; the bounded stand-in aoef_document_closure checks them on the JSON text "
          "with an independent reachability walk.",
     technique=TECH + "; ghost-effect flow analysis of the real collection adapters (program-order event log)",
 )
@@ -230,13 +231,16 @@ CLAIMED["C08"] = dict(
          "proved): the real evaluate_clip for all numbers of annotated x predicted events up to 2 x 1 / 1 x 2 (quick) and 2 x 2 "
          "(thorough), geometry presence symbolic, against the full per-clip statement, with match_geometries, the encoders, "
          "compute_affinity, _mean and classification_score seen only through their contracts (C07, C19, C06, this property). "
-         "The whole task including the clip pairing and score means end to end is decided by the bounded stand-in detection_small "
-         "(clips <= 3, events <= 3 + 3, geometry-less events, vocabulary 3) against an independent reference.",
+         "The whole task (sound_event_detection, _evaluate_clips: exactly the clips in both inputs, each meeting the per-clip "
+         "statement, overall score = mean of the clip scores) is verified for <= 2 predicted x <= 2 annotated clips with unbounded "
+         "events per clip through the contracts of iterate_over_valid_clips and evaluate_clip, and run end to end by the bounded "
+         "stand-in detection_small (clips <= 3, events <= 3 + 3, geometry-less and zero-extent events, vocabulary 3) against an "
+         "independent reference.",
     note="Four defects found by the stand-in were fixed in /repo (14d1302 indices into the unfiltered lists / geometry-less events "
          "dropped, b13c0a8 constant affinity 1, 57f20ee IndexError with nothing to evaluate, 6a20f58 mean_average_precision on "
          "all-unlabelled input). Unbounded event counts would need a loop summary over a contract-given list of index triples; "
-         "the bound is stated. The top-level glue (_evaluate_clips, score mean over clips) is covered by the stand-in only.",
-    technique=TECH + ", bounded in list length for evaluate_clip; callee contracts from C06/C07/C19; exhaustive stand-in",
+         "the bound is stated. The run metrics of the task are abstracted as some list of features (their values are C09).",
+    technique=TECH + ", bounded in list length for evaluate_clip and in the number of clips for the whole task; callee contracts from C06/C07/C19; exhaustive stand-in",
 )
 CLAIMED["C09"] = dict(
     level="other",
